@@ -25,6 +25,8 @@ def run(rep):
     rep.guard(b10, rep, w)
     rep.guard(b11, rep, w)
     rep.guard(b12, rep, w)
+    import c06
+    rep.guard(c06.s12, rep, w, 'C04')   # the emitted Pop / CloseUpvalue sequence matches the stack from the top down
     import c04_narrow
     rep.guard(c04_narrow.b4, rep, w)
     rep.guard(c04_narrow.b4n, rep, w)
